@@ -135,6 +135,86 @@ type testCase struct {
 	Flips    bool
 	Exp      string // S->C: outcome required by the generator
 	Vec      int
+	// ViaX: the body is built by walletV5R1.CreateSignedMsgBodyCell (the only entry point that takes extended
+	// actions) instead of CreateMessageBody / RawSend; Ext is the requested extended-action list (nil pointer if empty).
+	ViaX bool
+	Ext  []extAct
+}
+
+// extAct is one requested wallet-v5 extended action: add | remove (extension address) | sigauth (allowed flag).
+type extAct struct {
+	Kind    string
+	Wc      int
+	Addr    [32]byte
+	Allowed bool
+}
+
+func xreqJSON(xs []extAct) []ev.M {
+	out := make([]ev.M, len(xs))
+	for i, x := range xs {
+		out[i] = ev.M{"kind": x.Kind, "wc": x.Wc, "addr": hex.EncodeToString(x.Addr[:]), "allowed": x.Allowed}
+	}
+	return out
+}
+
+func libExt(xs []extAct) *wallet.W5ExtendedActions {
+	if len(xs) == 0 {
+		return nil
+	}
+	out := make(wallet.W5ExtendedActions, len(xs))
+	for i, x := range xs {
+		id := ton.AccountID{Workchain: int32(x.Wc), Address: x.Addr}
+		switch x.Kind {
+		case "add":
+			out[i] = wallet.W5ExtendedAction{SumType: "AddExtension", AddExtension: &struct{ Addr tlb.MsgAddress }{Addr: id.ToMsgAddress()}}
+		case "remove":
+			out[i] = wallet.W5ExtendedAction{SumType: "RemoveExtension", RemoveExtension: &struct{ Addr tlb.MsgAddress }{Addr: id.ToMsgAddress()}}
+		default:
+			out[i] = wallet.W5ExtendedAction{SumType: "SetSignatureAllowed", SetSignatureAllowed: &struct{ Allowed bool }{Allowed: x.Allowed}}
+		}
+	}
+	return &out
+}
+
+// xactsJSON renders what the library's decoder returned, in the shape of the request.
+func xactsJSON(xs *wallet.W5ExtendedActions) []ev.M {
+	out := []ev.M{}
+	if xs == nil {
+		return out
+	}
+	for _, x := range *xs {
+		m := ev.M{"kind": "other:" + string(x.SumType), "wc": 0, "addr": "", "allowed": false}
+		var a *tlb.MsgAddress
+		switch {
+		case x.SumType == "AddExtension" && x.AddExtension != nil:
+			m["kind"], a = "add", &x.AddExtension.Addr
+		case x.SumType == "RemoveExtension" && x.RemoveExtension != nil:
+			m["kind"], a = "remove", &x.RemoveExtension.Addr
+		case x.SumType == "SetSignatureAllowed" && x.SetSignatureAllowed != nil:
+			m["kind"], m["allowed"] = "sigauth", x.SetSignatureAllowed.Allowed
+		}
+		if a != nil {
+			if a.SumType == "AddrStd" {
+				m["wc"], m["addr"] = int(a.AddrStd.WorkchainId), hex.EncodeToString(a.AddrStd.Address[:])
+			} else {
+				m["kind"] = "other-address:" + string(a.SumType)
+			}
+		}
+		out = append(out, m)
+	}
+	return out
+}
+
+// xBody builds a v5r1 body through the exported CreateSignedMsgBodyCell.
+func (tc *testCase) xBody(raw []wallet.RawMessage) (*boc.Cell, error) {
+	key := ed25519.NewKeyFromSeed(tc.Seed[:])
+	o := wallet.Options{Workchain: &tc.Opts.Wc, NetworkGlobalID: tc.Opts.Net}
+	w5 := wallet.NewWalletV5R1(key.Public().(ed25519.PublicKey), o)
+	cfg := wallet.MessageConfig{Seqno: tc.Seqno, ValidUntil: time.Unix(int64(tc.Vu), 0), V5MsgType: wallet.V5MsgTypeSignedExternal}
+	if tc.MsgType == "int" {
+		cfg.V5MsgType = wallet.V5MsgTypeSignedInternal
+	}
+	return w5.CreateSignedMsgBodyCell(key, raw, libExt(tc.Ext), cfg)
 }
 
 // ------------------------------------------------------------------ structural keys
@@ -272,7 +352,21 @@ func (r *runner) runBody(tc *testCase) {
 		if tc.MsgType == "int" {
 			cfg.V5MsgType = wallet.V5MsgTypeSignedInternal
 		}
-		body, err := w.CreateMessageBody(cfg, sendables...)
+		e["xreq"] = xreqJSON(tc.Ext)
+		if tc.Exp != "" {
+			e["vec"] = tc.Vec
+		}
+		var body *boc.Cell
+		if tc.ViaX {
+			e["via"] = "CreateSignedMsgBodyCell"
+			raw := make([]wallet.RawMessage, len(sendables))
+			for i, s := range sendables {
+				raw[i] = marshalInternal(s)
+			}
+			body, err = tc.xBody(raw)
+		} else {
+			body, err = w.CreateMessageBody(cfg, sendables...)
+		}
 		e["err"] = errClass(err)
 		if err == nil {
 			e["body"] = tableJSON(project([]*boc.Cell{body}))
@@ -323,7 +417,29 @@ func (r *runner) runSend(tc *testCase) (bodyOut *boc.Cell, addrOut ton.AccountID
 				panic(fmt.Sprintf("StateInit: %v", err))
 			}
 		}
-		err = w.RawSend(context.Background(), tc.Seqno, time.Unix(int64(tc.Vu), 0), tc.Raw, init)
+		e["mt"] = "ext"
+		e["xreq"] = xreqJSON(tc.Ext)
+		if tc.ViaX {
+			// CreateSignedMsgBodyCell has no send path of its own: the body is put into an external message to the wallet's
+			// address exactly as RawSendV2 does with the body it builds, so that the same judgement and the library's
+			// message-level verifier / decoders apply
+			e["via"], e["mt"] = "CreateSignedMsgBodyCell", tc.MsgType
+			var body *boc.Cell
+			if body, err = tc.xBody(tc.Raw); err == nil {
+				var msg tlb.Message
+				if msg, err = ton.CreateExternalMessage(w.GetAddress(), body, init, tlb.VarUInteger16{}); err == nil {
+					c := boc.NewCell()
+					if err = tlb.Marshal(c, msg); err == nil {
+						var p []byte
+						if p, err = c.ToBocCustom(false, false, false, 0); err == nil {
+							chain.payloads = append(chain.payloads, p)
+						}
+					}
+				}
+			}
+		} else {
+			err = w.RawSend(context.Background(), tc.Seqno, time.Unix(int64(tc.Vu), 0), tc.Raw, init)
+		}
 		e["err"] = errClass(err)
 		if err != nil {
 			e["errtext"] = err.Error()
@@ -363,7 +479,7 @@ func (r *runner) runSend(tc *testCase) (bodyOut *boc.Cell, addrOut ton.AccountID
 			return md, rw
 		}
 		lib := ev.M{"verify": verdict(wallet.VerifySignature(ver, fresh(), pk)), "verify2": verdict(wallet.VerifySignature(ver, fresh(), pk2)),
-			"v5verify": "", "v5verify2": "", "wid": "", "vu": "", "seqno": "", "qid": "0", "st": "", "modes": []int{}, "mrows": []int{}}
+			"v5verify": "", "v5verify2": "", "wid": "", "vu": "", "seqno": "", "qid": "0", "st": "", "modes": []int{}, "mrows": []int{}, "xacts": []ev.M{}}
 		var m tlb.Message
 		if err := tlb.Unmarshal(fresh(), &m); err != nil {
 			panic(fmt.Sprintf("own payload is not a message: %v", err))
@@ -418,6 +534,12 @@ func (r *runner) runSend(tc *testCase) (bodyOut *boc.Cell, addrOut ton.AccountID
 				if d.SumType == "SignedExternal" && d.SignedExternal != nil {
 					lib["wid"] = u32(d.SignedExternal.WalletId)
 					lib["vu"], lib["seqno"] = u32(d.SignedExternal.ValidUntil), u32(d.SignedExternal.Seqno)
+					lib["xacts"] = xactsJSON(d.SignedExternal.ExtendedActions)
+				}
+				if d.SumType == "SignedInternal" && d.SignedInternal != nil {
+					lib["wid"] = u32(d.SignedInternal.WalletId)
+					lib["vu"], lib["seqno"] = u32(d.SignedInternal.ValidUntil), u32(d.SignedInternal.Seqno)
+					lib["xacts"] = xactsJSON(d.SignedInternal.ExtendedActions)
 				}
 				dmsgs = d.RawMessages()
 			}
@@ -687,6 +809,54 @@ func randCase(rng *rand.Rand, id string, ver string, n int) *testCase {
 	return tc
 }
 
+// randExt draws k extended actions of the three kinds.
+func randExt(rng *rand.Rand, k int) []extAct {
+	out := make([]extAct, k)
+	for i := range out {
+		x := extAct{Kind: []string{"add", "remove", "sigauth"}[rng.Intn(3)]}
+		if x.Kind == "sigauth" {
+			x.Allowed = rng.Intn(2) == 0
+		} else {
+			x.Wc = randWc(rng)
+			rng.Read(x.Addr[:])
+		}
+		out[i] = x
+	}
+	return out
+}
+
+// extOf concretises a list of extended-action kinds (S->C cases).
+func extOf(rng *rand.Rand, kinds []string, wc int) []extAct {
+	out := make([]extAct, len(kinds))
+	for i, k := range kinds {
+		x := extAct{Kind: k}
+		if k == "sigauth" {
+			x.Allowed = i%2 == 0
+		} else {
+			x.Wc = wc
+			rng.Read(x.Addr[:])
+		}
+		out[i] = x
+	}
+	return out
+}
+
+// xCase: a v5r1 case that goes through CreateSignedMsgBodyCell with k extended actions; every message is a plain
+// wallet.Message so that the same list serves the field request (Body event) and the raw request (Send event).
+func xCase(rng *rand.Rand, id string, n, k int) *testCase {
+	tc := randCase(rng, id, "V5R1", n)
+	tc.ViaX = true
+	tc.Ext = randExt(rng, k)
+	tc.MsgType = []string{"ext", "int"}[rng.Intn(2)]
+	for i := range tc.Fields {
+		for tc.Fields[i].Kind != "msg" {
+			tc.Fields[i] = randFields(rng, n > 16)
+		}
+		tc.Raw[i] = marshalInternal(tc.Fields[i].sendable())
+	}
+	return tc
+}
+
 // overLimit makes the raw request one message longer than the version allows.
 func overLimit(rng *rand.Rand, tc *testCase) *testCase {
 	c := *tc
@@ -735,6 +905,24 @@ func Drive(w *ev.Writer, o Opts) {
 		}
 		if i%4 == 3 {
 			r.runSend(overLimit(rng, tc))
+		}
+	}
+	// wallet v5r1 with extended actions (add / remove extension, signature auth) beside 0 / 1 / many out messages
+	nX := 4
+	if o.Tier == "thorough" {
+		nX = 40
+	}
+	for i := 0; i < nX; i++ {
+		n := []int{0, 1, 2, 3, 5, 1 + rng.Intn(12)}[(i+o.Shard)%6]
+		k := []int{1, 2, 3, 0, 1 + rng.Intn(6)}[(i+o.Shard/2)%5]
+		if o.Tier == "thorough" && i == nX-1 {
+			n = []int{255, 254, 100}[o.Shard%3]
+		}
+		tc := xCase(rng, next(), n, k)
+		r.runBody(tc)
+		body, addr := r.runSend(tc)
+		if body != nil && k > 0 && ((o.Tier != "thorough" && o.Shard == 7 && i == 0) || (o.Tier == "thorough" && i < 2)) {
+			r.runFlips(tc, body, addr, rng, 64, 64)
 		}
 	}
 	// cases at and near the limits of the large versions
